@@ -690,6 +690,50 @@ func genAll(c *vh.Ctx) {
 		emit(d, "", "single", false)
 		valid = append(valid, d)
 	}
+	// 2b. issuer and subject with the same attribute values but different DER (string type, RDN grouping,
+	//     attribute order that prints the same, case / whitespace): never self-signed, whoever signed
+	atv := func(oid []byte, tag byte, v string) []byte { return tlv(0x30, oid, tlv(tag, []byte(v))) }
+	set := func(atvs ...[]byte) []byte { return tlv(0x31, atvs...) }
+	oidC := []byte{0x06, 0x03, 0x55, 0x04, 0x06}
+	type pair struct {
+		note            string
+		issuer, subject []byte
+	}
+	pairs := []pair{
+		{"CN PrintableString vs UTF8String", tlv(0x30, set(atv(oidCN, 0x13, "Test CA"))), tlv(0x30, set(atv(oidCN, 0x0c, "Test CA")))},
+		{"CN UTF8String vs IA5String", tlv(0x30, set(atv(oidCN, 0x0c, "Test CA"))), tlv(0x30, set(atv(oidCN, 0x16, "Test CA")))},
+		{"two RDNs vs one multi-valued RDN", tlv(0x30, set(atv(oidO, 0x13, "Org")), set(atv(oidCN, 0x13, "x"))), tlv(0x30, set(atv(oidCN, 0x13, "x"), atv(oidO, 0x13, "Org")))},
+		{"one multi-valued RDN vs two RDNs", tlv(0x30, set(atv(oidCN, 0x13, "x"), atv(oidO, 0x13, "Org"))), tlv(0x30, set(atv(oidO, 0x13, "Org")), set(atv(oidCN, 0x13, "x")))},
+		{"three RDNs vs RDN + multi-valued RDN", tlv(0x30, set(atv(oidC, 0x13, "US")), set(atv(oidO, 0x13, "Org")), set(atv(oidCN, 0x13, "x"))), tlv(0x30, set(atv(oidC, 0x13, "US")), set(atv(oidCN, 0x13, "x"), atv(oidO, 0x13, "Org")))},
+		{"multi-valued RDN in the other attribute order", tlv(0x30, set(atv(oidCN, 0x13, "x"), atv(oidO, 0x13, "Org"))), tlv(0x30, set(atv(oidO, 0x13, "Org"), atv(oidCN, 0x13, "x")))},
+		{"RDN order swapped", tlv(0x30, set(atv(oidO, 0x13, "Org")), set(atv(oidCN, 0x13, "x"))), tlv(0x30, set(atv(oidCN, 0x13, "x")), set(atv(oidO, 0x13, "Org")))},
+		{"case differs", tlv(0x30, set(atv(oidCN, 0x13, "Test CA"))), tlv(0x30, set(atv(oidCN, 0x13, "test ca")))},
+		{"inner whitespace differs", tlv(0x30, set(atv(oidCN, 0x13, "Test CA"))), tlv(0x30, set(atv(oidCN, 0x13, "Test  CA")))},
+		{"trailing space", tlv(0x30, set(atv(oidCN, 0x13, "Test CA"))), tlv(0x30, set(atv(oidCN, 0x13, "Test CA ")))},
+		{"empty sequence vs empty set", tlv(0x30), tlv(0x30, set())},
+	}
+	for i, pr := range pairs {
+		for k := 0; k < 3; k++ {
+			s := baseSpec(c)
+			s.issuer, s.subject = pr.issuer, pr.subject
+			who := "own key"
+			switch k {
+			case 1:
+				s.signKey, who = edSigner(c.Bytes(32)), "foreign key"
+			case 2: // control: identical DER, own key: must be self-signed
+				s.issuer, who = pr.subject, "control, identical names"
+			}
+			if k == 0 && i%2 == 1 {
+				s.key = rsaSigner()
+				s.signKey = s.key
+			}
+			d := s.der()
+			emit(d, "", "same values, different DER: "+pr.note+" ("+who+")", false)
+			if k == 0 {
+				valid = append(valid, d)
+			}
+		}
+	}
 	// 3. non-canonical but accepted shapes
 	for i := 0; i < 12*scale; i++ {
 		s := baseSpec(c)
